@@ -140,6 +140,15 @@ func execGraph(g *Graph, outcome string, st *counters) (r *modRun, harnessErr st
 		"struct": starlark.NewBuiltin("struct", starlarkstruct.Make),
 		"json":   json.Module,
 		"hostv":  r.hostv,
+		// frozen values that the host supplies: operands of +, | inside the module
+		"hfs": frozenValue(starlarkstruct.FromStringDict(starlarkstruct.Default, starlark.StringDict{"z": starlark.MakeInt(1), "w": starlark.NewList([]starlark.Value{starlark.MakeInt(7)})})),
+		"hft": frozenValue(starlark.Tuple{starlark.MakeInt(1), starlark.NewList([]starlark.Value{starlark.MakeInt(7)})}),
+		"hfl": frozenValue(starlark.NewList([]starlark.Value{starlark.MakeInt(7)})),
+		"hfd": frozenValue(func() starlark.Value {
+			d := new(starlark.Dict)
+			d.SetKey(starlark.String("h"), starlark.NewList([]starlark.Value{starlark.MakeInt(7)}))
+			return d
+		}()),
 		"hostfreeze": starlark.NewBuiltin("hostfreeze", func(th *starlark.Thread, _ *starlark.Builtin, args starlark.Tuple, _ []starlark.Tuple) (starlark.Value, error) {
 			args[0].Freeze() // what a host does before handing a value to another thread
 			return starlark.None, nil
@@ -173,6 +182,55 @@ func execGraph(g *Graph, outcome string, st *counters) (r *modRun, harnessErr st
 		}
 	}
 	return r, ""
+}
+
+func frozenValue(v starlark.Value) starlark.Value { v.Freeze(); return v }
+
+// sweepReachable: every list, dict and set reachable from the globals through
+// the Go API (stashed node or not: values inside bigger structures, parts of
+// host values added to, ...) refuses mutation through the Go API and the
+// frozen graph stays as it is.
+func (r *modRun) sweepReachable() *finding {
+	before := r.frozenSer()
+	nine := starlark.MakeInt(9)
+	for id := range apiReachable(r.globals["g"]) {
+		try := func(desc string, err error) *finding {
+			r.stats.attempts++
+			if now := r.frozenSer(); err == nil || now != before {
+				return &finding{"reachable-value-mutable", -1, desc, fmt.Sprintf("%s on a %T reachable from the module globals returned err=%v, state changed: %v\n before %s\n after  %s", desc, id, err, now != before, before, now)}
+			}
+			return nil
+		}
+		switch x := id.(type) {
+		case *starlark.List:
+			if f := try("Go:Append(9)", x.Append(nine)); f != nil {
+				return f
+			}
+			if x.Len() > 0 {
+				if f := try("Go:SetIndex(0,9)", x.SetIndex(0, nine)); f != nil {
+					return f
+				}
+			}
+			if f := try("Go:Clear()", x.Clear()); f != nil {
+				return f
+			}
+		case *starlark.Dict:
+			if f := try("Go:SetKey(9,9)", x.SetKey(nine, nine)); f != nil {
+				return f
+			}
+			if f := try("Go:Clear()", x.Clear()); f != nil {
+				return f
+			}
+		case *starlark.Set:
+			if f := try("Go:Insert(9)", x.Insert(nine)); f != nil {
+				return f
+			}
+			if f := try("Go:Clear()", x.Clear()); f != nil {
+				return f
+			}
+		}
+	}
+	return nil
 }
 
 // buildSecond creates the second module, which receives the root value:
@@ -698,6 +756,12 @@ func (r *modRun) checkAll(onlyNode int, onlyOp string) *finding {
 	for i := range r.nodes {
 		if !r.reach[i] {
 			order = append(order, i)
+		}
+	}
+	// phase 0: every container reachable from the globals, whether or not it is a node of the graph
+	if onlyNode < 0 {
+		if f := r.sweepReachable(); f != nil {
+			return f
 		}
 	}
 	// phase 1: everything that does not involve the second module
